@@ -13,8 +13,8 @@ if __name__ == "__main__":  # the `python -O` child of probe_cases: needs harnes
 from common import bits_str, hex_str, impl_error
 
 PROP = "C04"
-MODULES = ["C04", "C04a", "C04b", "C04c", "C04p", "C04t"]
-GEN = ["Codes", "Crc", "Integrity", "Elements", "TranslPduSmall"]
+MODULES = ["C04", "C04a", "C04b", "C04c", "C04p", "C04t", "C04u"]
+GEN = ["Codes", "Crc", "Integrity", "Elements", "TranslPduSmall", "TranslHytera"]
 ANCHORS = [
     "okdmr/dmrlib/etsi/crc",
     "okdmr/dmrlib/etsi/fec/golay_20_8_7.py",
@@ -2047,7 +2047,35 @@ def run_transl(ctx):
     ctx.correspond("transl", pairs + prim)
 
 
+def run_transl_hrnp(ctx):
+    """Differential validation of the source translator (tools/py2lean.py) and its prelude (Model/Py.lean), trusted base of
+    Props/C04u: the definition TRANSLATED from the source of HRNP.calculate_checksum (`Gen/TranslHytera.lean`, driver operation
+    `t.hy.hrnpsum`) against the real function (C12 runs the larger sample of the same operation).  A difference is a translator or
+    prelude bug, never a finding about /repo."""
+    if ctx.search_only or not ctx.driver_ok:
+        return
+    from okdmr.dmrlib.hytera.pdu.hrnp import HRNP as _HRNP
+    rng = ctx.rng
+    data = [b"", b"\x00", b"\xff", b"\xff" * 2, b"\xff" * 9, bytes.fromhex("7e0400fe20100000000c"), b"\xff" * 131072]
+    data += [bytes(rng.choice((0, 0xFF, 0xFE, 1, rng.randrange(256))) for _ in range(rng.randrange(0, 60))) for _ in range(ctx.budget(300, 3000))]
+    pairs = []
+    for d in data:
+        try:
+            out = _HRNP.calculate_checksum(d).hex()
+        except Exception as e:  # noqa
+            out = impl_error(e)
+        pairs.append(("t.hy.hrnpsum " + (d.hex() if d else "-"), out))
+    ctx.count("transl:calculate_checksum", len(data))
+    ctx.correspond("transl", pairs)
+
+
 def run(ctx):
+    ctx.trusted_base += [
+        "tools/py2lean.py + tools/extract_transl.py (source translator: Gen/TranslHytera.lean from inspect.getsource of HRNP.calculate_checksum) and "
+        "lean/DmrVerif/Model/Py.lean (semantics of the Python subset); validated on every run by t.hy.hrnpsum (run_transl_hrnp); Props/C04u proves the "
+        "translated definition equal to the model's hrnpChecksum for all byte strings",
+    ]
+    run_transl_hrnp(ctx)
     ctx.rule = (
         "slot type / EMB: received words = all code words, all zero-parity words, single-bit neighbours of code words and 10^4 random "
         "words (thorough: all 2^20 / 2^16 words), indicator compared with membership in the set of generate() outputs; every PDU built from "
